@@ -653,6 +653,8 @@ def analyse(ctx, prog, chk, table=None):
     out = {"guards": rule_ver_guard(ctx, prog, chk, table), "catch": rule_ver_catch(ctx, prog, chk),
            "agg": rule_ver_agg(ctx, prog, chk), "status": rule_status_use(ctx, prog, chk), "fail": rule_ver_fail(ctx, prog, chk)}
     out.update(c05_rsa.analyse(ctx, prog, chk))
+    from . import c05_trunc
+    out["trunc"] = c05_trunc.analyse(ctx, prog, chk)
     return out
 
 
@@ -673,5 +675,6 @@ def run(ctx, chk):
     chk.floor("VER-GUARD", "guard obligations", c["guards"], 20)
     chk.floor("VER-CATCH", "verifiers with a catch-body", c["catch"], 22)
     chk.floor("STATUS-USE", "status call sites of checking operations", c["status"], 10)
+    chk.floor("TRUNC", "ECDSA entry points", c["trunc"], 2)
     chk.floor("PSS-BITS", "loops over the leftmost bits of the PSS encoded message", c["bits"], 3)
     chk.floor("PSS-EMLEN", "sign / verify pairs of the PSS encoded-message length", c["emlen"], 1)
